@@ -47,6 +47,15 @@ def array_state(a):
             None if dpv is None else tuple(numpy.asarray(dpv).reshape(-1).tolist()))
 
 
+def array_state_full(a):
+    """array_state plus, per column variable / index entry, its class and (for a proposition used as a column variable) its structure"""
+    def ent(v):
+        return (type(v).__name__, state(v) if hasattr(v, "propositions") else None)
+    vs = getattr(a, "variables", None)
+    ix = getattr(a, "index", None)
+    return array_state(a) + (None if vs is None else tuple(ent(v) for v in vs), None if ix is None else tuple(ent(v) for v in ix))
+
+
 def result(r, depth=0):
     """digestable form of a return value"""
     if depth > 8:
